@@ -86,6 +86,9 @@ type c05 struct {
 	opts  *generic.Options
 	rec   bool
 	facts map[string]string
+	// cpReuse is the world's long-lived CopyTo destination; prevKeys are the keys of the previously loaded map
+	cpReuse  generic.PathNode
+	prevKeys []*TVal
 }
 
 // checkTree compares a loaded PathNode tree with the model value: exactly the model's children,
@@ -378,22 +381,57 @@ func runC05(w *W) {
 		// a deep copy (CopyTo) is a tree of its own as well: another value loaded into the copy must not show in the original
 		if t.Chance(1, 5, "tree.copyto") {
 			w.NextOp("PathNode.CopyTo + Load of another value into the copy")
-			var cp generic.PathNode
-			tree.CopyTo(&cp)
-			vg.o.nodes = 0
-			val2 := vg.value(rootT, vg.o.Depth)
-			raw2 := encodeThrift(nil, val2)
-			in2 := w.AllocData(raw2, simrt.PlaceHeap)
-			cp.Node = generic.NewNode(thrift.Type(rootT.Kind), in2.B)
-			w.opFacts = c.facts
-			if err := cp.Load(rec, opts); err != nil {
-				w.Failf("load-failed", c.facts, "Load of a well-formed value into a copied tree failed: %v", err)
+			// the destination is a fresh node, or the world's long-lived one (which held other copies before)
+			cpp := &generic.PathNode{}
+			if t.Chance(1, 2, "tree.copyto.reuse") {
+				cpp = &c.cpReuse
+				w.Count("tree_copy_into_reused_destination")
 			}
-			w.opFacts = nil
-			c.marshalAndCheck(&cp, cloneVal(val2), nil, false, "copy")
-			c.marshalAndCheck(tree, model, nil, false, "original-after-copy")
-			w.Count("tree_copies")
+			tree.CopyTo(cpp)
+			// the copy answers lookups like the original: in particular not with what the destination held before
+			c.checkTree("$copy", cpp, val, rec)
+			if rootT.Kind == tMAP {
+				for i, k := range c.prevKeys {
+					if i >= 8 {
+						break
+					}
+					var step pstep
+					var got *generic.PathNode
+					if k.T.Kind == tSTRING {
+						step = pstep{Kind: 2, SKey: string(k.S)}
+						got = cpp.GetByStr(step.SKey, opts)
+					} else {
+						step = pstep{Kind: 3, IKey: k.I}
+						got = cpp.GetByInt(int(k.I), opts)
+					}
+					want, _, _ := childAt(val, step)
+					c.checkLookup("copy: Get "+step.String(), got, want)
+				}
+			}
+			if cpp == &c.cpReuse && t.Chance(1, 2, "tree.copyto.keep") {
+				// the copy is marshalled and kept as it is: the next copy lands on what this one left
+				c.marshalAndCheck(cpp, cloneVal(model), nil, false, "copy (kept)")
+				w.Count("tree_copies")
+				goto copied
+			}
+			{
+				cp := *cpp
+				vg.o.nodes = 0
+				val2 := vg.value(rootT, vg.o.Depth)
+				raw2 := encodeThrift(nil, val2)
+				in2 := w.AllocData(raw2, simrt.PlaceHeap)
+				cp.Node = generic.NewNode(thrift.Type(rootT.Kind), in2.B)
+				w.opFacts = c.facts
+				if err := cp.Load(rec, opts); err != nil {
+					w.Failf("load-failed", c.facts, "Load of a well-formed value into a copied tree failed: %v", err)
+				}
+				w.opFacts = nil
+				c.marshalAndCheck(&cp, cloneVal(val2), nil, false, "copy")
+				c.marshalAndCheck(tree, model, nil, false, "original-after-copy")
+				w.Count("tree_copies")
+			}
 		}
+	copied:
 		// a fork of the tree is a tree of its own: edits of either must not show in the other
 		var fork *generic.PathNode
 		var forkModel *TVal
@@ -420,6 +458,9 @@ func runC05(w *W) {
 		}
 		if !bytes.Equal(in.B, raw) {
 			w.Failf("input-modified", c.facts, "Load/Marshal/edits modified the loaded buffer")
+		}
+		if val.T.Kind == tMAP {
+			c.prevKeys = append(c.prevKeys[:0], val.Keys...)
 		}
 	}
 	w.sample = map[string]interface{}{"root": typeName(rootT), "loads": nloads, "options": fmt.Sprintf("%+v", *opts), "recurse": rec}
